@@ -127,9 +127,9 @@ Example c10_truncated_nonvacuous :
   | Ok m => lenN (mgetLI m cLayerStack) =? 3 | _ => false end = true.
 Proof. vm_compute. repeat split. Qed.
 
-(* PARTIAL (what is left): cuts inside the variable part of an MPLS stack or an SRv6 segment list beyond the
-   header's minimal length, and cuts exactly at a header boundary behind an MPLS stack (the dissector then
-   cannot see the IP version nibble), are covered by the check's exhaustive cut sweep, not by a theorem. *)
+(* What c10_truncated leaves open -- cuts inside the variable part of an MPLS stack or an SRv6 segment list beyond the
+   header's minimal length, cuts exactly at a header boundary (also behind an MPLS stack, where the dissector cannot see
+   the IP version nibble), cuts through TCP options -- is closed by c10_any_capture_length at the end of this file. *)
 
 (* ---- the capture cut short, in the property's own words ------------------------------------------------------
    "When the capture is cut short, every reported field still equals the frame's true value or is left unset":
@@ -162,3 +162,75 @@ Print Assumptions c10_cut_layers.
 Theorem c10_columns_written_once : forall f, wf_frame f = true -> NoDup (fkeys (applied false (frame_chain f))).
 Proof. exact frame_applied_nodup. Qed.
 Print Assumptions c10_columns_written_once.
+
+(* ---- EVERY capture length (sixth round; Proofs/FrameAnyCutP.v) ---------------------------------------------------
+   The property quantifies over "forall capture lengths 0..len(frame)".  c10_truncated / c10_cut_true_or_unset cover a
+   capture that ends before the minimal length of the header it falls into; c10_full_capture the complete frame.  The
+   theorem below covers ALL lengths n (beyond the frame's length the capture is the frame): also a cut exactly at a
+   header boundary -- including right behind an MPLS stack, where the dissector cannot see the IP version nibble and
+   reports no ethertype --, a cut through an MPLS stack (the complete entries in front of the cut are reported), through
+   an SRv6 segment list (the complete segments), through TCP options or behind the first two bytes of an ICMP header
+   (the fixed part is enough), and a cut behind the last header.
+   For every well-formed frame f and EVERY n: the capture is dissected without error; every column other than the
+   ethertype, the VLAN id (they report the last tag seen) and the two layer lists
+     - equals the value the COMPLETE frame gives it, or
+     - is unset, or
+     - (MPLS labels, MPLS TTLs, SRv6 segments of a stack / list the capture cuts through) is a prefix of the complete
+       frame's list: every label / TTL / segment reported is the true one at its position;
+   and the layer stack is a prefix of the frame's layer list, with one size per layer. *)
+From GF Require Import Proofs.FrameAnyCutP.
+Theorem c10_any_capture_length : forall f n, wf_frame f = true ->
+  exists m, parse_packet empty_pcfg empty_msg (firstn n (encode_frame f)) = Ok m /\
+    (forall k, k <> cEtype -> k <> cVlanId -> k <> cLayerStack -> k <> cLayerSize ->
+       alookup (cols m) k = alookup (cols (ref_frame f)) k \/
+       alookup (cols m) k = None \/
+       exists va vr, alookup (cols m) k = Some va /\ alookup (cols (ref_frame f)) k = Some vr /\ vprefix va vr) /\
+    (exists k, mgetLI m cLayerStack = firstn k (map (fun x => layer_code (fst x)) (frame_layers f)) /\
+               length (mgetLI m cLayerSize) = length (mgetLI m cLayerStack)).
+Proof. exact any_cut. Qed.
+Print Assumptions c10_any_capture_length.
+
+(* what the dissectors of the variable-length headers do on a header the capture cuts through (every field value,
+   every number of complete entries, every remainder): the complete label entries / segments in front of the cut *)
+Theorem c10_mpls_stack_cut : forall ports base m ls k tailb,
+  forallb wf_label ls = true -> (1 <= k < length ls)%nat -> (length tailb < 4)%nat ->
+  run_parser ports PMPLS base m (mpls_open (firstn k ls) ++ tailb) =
+  Ok ((if base then assign [(cMplsLabel, VLI (map fst (firstn k ls))); (cMplsTtl, VLI (map snd (firstn k ls)))] else (fun x => x))
+        (add_layer m PMPLS), 4 * N.of_nat k, PNone).
+Proof. exact mpls_step_partial. Qed.
+Print Assumptions c10_mpls_stack_cut.
+
+Theorem c10_srv6_list_cut : forall ports base m next sl segs k tailb,
+  wf_srh (sl, segs) = true -> mgetLB m cRhAddrs = [] -> (k < length segs)%nat -> (length tailb < 16)%nat ->
+  run_parser ports PV6Route base m (srh8 next sl segs ++ concat (firstn k segs) ++ tailb) =
+  Ok ((if base then assign [(cRhSegLeft, VI sl); (cRhAddrs, VLB (firstn k segs))] else (fun x => x)) (add_layer m PV6Route),
+      8 + 16 * lenN segs, next_proto next).
+Proof. exact srh_step. Qed.
+Print Assumptions c10_srv6_list_cut.
+
+(* non-vacuity: generated frame 3 of seed 1 carries four MPLS labels; a capture that ends one byte into its third
+   label entry reports exactly the first two labels and TTLs, three layers, no addresses; generated frame 12 carries an
+   SRv6 header with three segments; a capture that ends five bytes into the second segment reports the first one *)
+Example c10_any_capture_nonvacuous :
+  let f := gcase gen_frame 1 2 in
+  let n := (14 + 4 * length (fVlans f) + 9)%nat in
+  wf_frame f = true /\ lenN (fMpls f) = 4 /\
+  match parse_packet empty_pcfg empty_msg (firstn n (encode_frame f)) with
+  | Ok m => mgetLI m cMplsLabel = firstn 2 (map fst (fMpls f)) /\ mgetLI m cMplsTtl = firstn 2 (map snd (fMpls f)) /\
+            mgetLI m cLayerStack = firstn (2 + length (fVlans f)) (map (fun x => layer_code (fst x)) (frame_layers f)) /\
+            alookup (cols m) cSrcAddr = None
+  | _ => False end.
+Proof. vm_compute. repeat split. Qed.
+
+Example c10_any_capture_nonvacuous_srv6 :
+  let f := gcase gen_frame 1 11 in
+  let j := S (length (front_chain f)) in
+  let n := (length (concat (map lhdr (firstn j (frame_chain f)))) + 8 + 16 + 5)%nat in
+  wf_frame f = true /\
+  match fOuter f with L3v6 h => match i6Srh h with Some (_, segs) =>
+    lenN segs = 3 /\
+    match parse_packet empty_pcfg empty_msg (firstn n (encode_frame f)) with
+    | Ok m => mgetLB m cRhAddrs = firstn 1 segs /\ alookup (cols m) cSrcPort = None
+    | _ => False end
+  | None => False end | _ => False end.
+Proof. vm_compute. repeat split. Qed.
